@@ -18,6 +18,8 @@
 name: mbuff.cmp.samelen
 define: U_CMP, U_SAMELEN
 src: mbuff.c
+native: mbuff
+native_includes: mbuff.c
 enforce: spif_mbuff_cmp
 backend: sat
 objbits: 6
@@ -27,6 +29,8 @@ flags: --slice-formula
 name: mbuff.cmp.difflen
 define: U_CMP, U_DIFFLEN, U_NOT_KF
 src: mbuff.c
+native: mbuff
+native_includes: mbuff.c
 enforce: spif_mbuff_cmp
 backend: sat
 objbits: 6
@@ -36,6 +40,8 @@ flags: --slice-formula
 name: mbuff.cmp.difflen.eq
 define: U_CMP, U_DIFFLEN, U_ONLY_KF
 src: mbuff.c
+native: mbuff
+native_includes: mbuff.c
 enforce: spif_mbuff_cmp
 backend: sat
 objbits: 6
@@ -45,6 +51,8 @@ flags: --slice-formula
 name: mbuff.cmp.null
 define: U_CMP, U_NULL
 src: mbuff.c
+native: mbuff
+native_includes: mbuff.c
 enforce: spif_mbuff_cmp
 backend: sat
 objbits: 6
@@ -54,6 +62,8 @@ flags: --slice-formula
 name: mbuff.comp.samelen
 define: U_COMP, U_SAMELEN
 src: mbuff.c
+native: mbuff
+native_includes: mbuff.c
 enforce: spif_mbuff_comp
 backend: sat
 objbits: 6
@@ -64,6 +74,8 @@ funcs: spif_mbuff_cmp
 name: mbuff.comp.difflen
 define: U_COMP, U_DIFFLEN, U_NOT_KF
 src: mbuff.c
+native: mbuff
+native_includes: mbuff.c
 enforce: spif_mbuff_comp
 backend: sat
 objbits: 6
@@ -74,6 +86,8 @@ funcs: spif_mbuff_cmp
 name: mbuff.comp.difflen.eq
 define: U_COMP, U_DIFFLEN, U_ONLY_KF
 src: mbuff.c
+native: mbuff
+native_includes: mbuff.c
 enforce: spif_mbuff_comp
 backend: sat
 objbits: 6
@@ -84,6 +98,8 @@ funcs: spif_mbuff_cmp
 name: mbuff.ncmp.within
 define: U_NCMP, U_WITHIN
 src: mbuff.c
+native: mbuff
+native_includes: mbuff.c
 enforce: spif_mbuff_ncmp
 backend: sat
 objbits: 6
@@ -93,6 +109,8 @@ flags: --slice-formula
 name: mbuff.ncmp.beyond
 define: U_NCMP, U_BEYOND, U_NOT_KF
 src: mbuff.c
+native: mbuff
+native_includes: mbuff.c
 enforce: spif_mbuff_ncmp
 backend: sat
 objbits: 6
@@ -102,6 +120,8 @@ flags: --slice-formula
 name: mbuff.ncmp.beyond.eq
 define: U_NCMP, U_BEYOND, U_ONLY_KF
 src: mbuff.c
+native: mbuff
+native_includes: mbuff.c
 enforce: spif_mbuff_ncmp
 backend: sat
 objbits: 6
@@ -111,6 +131,8 @@ flags: --slice-formula
 name: mbuff.cmp_with_ptr.within
 define: U_CMP_PTR, U_WITHIN
 src: mbuff.c
+native: mbuff
+native_includes: mbuff.c
 enforce: spif_mbuff_cmp_with_ptr
 backend: sat
 objbits: 6
@@ -120,6 +142,8 @@ flags: --slice-formula
 name: mbuff.cmp_with_ptr.slack
 define: U_CMP_PTR, U_SLACK
 src: mbuff.c
+native: mbuff
+native_includes: mbuff.c
 enforce: spif_mbuff_cmp_with_ptr
 backend: sat
 objbits: 6
@@ -129,6 +153,8 @@ flags: --slice-formula
 name: mbuff.cmp_with_ptr.beyond
 define: U_CMP_PTR, U_BEYOND
 src: mbuff.c
+native: mbuff
+native_includes: mbuff.c
 enforce: spif_mbuff_cmp_with_ptr
 backend: sat
 objbits: 6
@@ -138,6 +164,8 @@ flags: --slice-formula
 name: mbuff.cmp_with_ptr.null
 define: U_CMP_PTR, U_NULL
 src: mbuff.c
+native: mbuff
+native_includes: mbuff.c
 enforce: spif_mbuff_cmp_with_ptr
 backend: sat
 objbits: 6
@@ -147,6 +175,8 @@ flags: --slice-formula
 name: mbuff.ncmp_with_ptr.within
 define: U_NCMP_PTR, U_WITHIN
 src: mbuff.c
+native: mbuff
+native_includes: mbuff.c
 enforce: spif_mbuff_ncmp_with_ptr
 backend: sat
 objbits: 6
@@ -157,6 +187,8 @@ funcs: spif_mbuff_cmp_with_ptr
 name: mbuff.ncmp_with_ptr.slack
 define: U_NCMP_PTR, U_SLACK
 src: mbuff.c
+native: mbuff
+native_includes: mbuff.c
 enforce: spif_mbuff_ncmp_with_ptr
 backend: sat
 objbits: 6
@@ -167,6 +199,8 @@ funcs: spif_mbuff_cmp_with_ptr
 name: mbuff.ncmp_with_ptr.beyond
 define: U_NCMP_PTR, U_BEYOND
 src: mbuff.c
+native: mbuff
+native_includes: mbuff.c
 enforce: spif_mbuff_ncmp_with_ptr
 backend: sat
 objbits: 6
@@ -177,6 +211,8 @@ funcs: spif_mbuff_cmp_with_ptr
 name: mbuff.ncmp_with_ptr.null
 define: U_NCMP_PTR, U_NULL
 src: mbuff.c
+native: mbuff
+native_includes: mbuff.c
 enforce: spif_mbuff_ncmp_with_ptr
 backend: sat
 objbits: 6
@@ -216,6 +252,7 @@ funcs: spif_mbuff_cmp_with_ptr
 # ifdef U_NULL
 spif_cmp_t FN(spif_mbuff_t self, spif_mbuff_t other)
 __CPROVER_requires((self == NULL || MBUFF_INV(self)) && (other == NULL || MBUFF_INV(other)) && (self == NULL || other == NULL))
+__CPROVER_requires(MB_WIT_SELF(self) && MB_WIT_OTHER(other))
 __CPROVER_assigns(vg_cmp_d)
 __CPROVER_ensures(RV == (self == NULL ? (other == NULL ? SPIF_CMP_EQUAL : SPIF_CMP_LESS) : SPIF_CMP_GREATER))
 ;
@@ -227,6 +264,7 @@ __CPROVER_ensures(RV == (self == NULL ? (other == NULL ? SPIF_CMP_EQUAL : SPIF_C
 #  endif
 spif_cmp_t FN(spif_mbuff_t self, spif_mbuff_t other)
 __CPROVER_requires(MBUFF_INV(self) && MBUFF_INV(other) && LENS(self, other))
+__CPROVER_requires(MB_WIT_SELF(self) && MB_WIT_OTHER(other))
 CMP_CONTRACT(self->buff, self->len, other->buff, other->len)
 ;
 # endif
@@ -249,11 +287,13 @@ void harness(void)
 # endif
 spif_cmp_t spif_mbuff_ncmp(spif_mbuff_t self, spif_mbuff_t other, spif_memidx_t cnt)
 __CPROVER_requires(MBUFF_INV(self) && MBUFF_INV(other) && CNT(self, other, cnt))
+__CPROVER_requires(MB_WIT_SELF(self) && MB_WIT_OTHER(other))
 CMP_CONTRACT(self->buff, NA, other->buff, NB)
 ;
 void harness(void)
 {
     spif_mbuff_t self, other; spif_memidx_t cnt;
+    w_cnt = cnt;
     spif_mbuff_ncmp(self, other, cnt);
     VERIF_CANARY();
 }
@@ -285,12 +325,14 @@ void harness(void)
 spif_cmp_t FN(spif_mbuff_t self, spif_byteptr_t other, spif_memidx_t len)
 __CPROVER_requires((self == NULL || MBUFF_INV(self)) && (self == NULL || other == NULL))
 __CPROVER_requires(0 <= len && len <= VCAP && (other == NULL || __CPROVER_is_fresh(other, (size_t) len)))
+__CPROVER_requires(MB_WIT_SELF(self))
 __CPROVER_assigns(vg_cmp_d)
 __CPROVER_ensures(RV == (self == NULL ? (other == NULL ? SPIF_CMP_EQUAL : SPIF_CMP_LESS) : SPIF_CMP_GREATER))
 ;
 # else
 spif_cmp_t FN(spif_mbuff_t self, spif_byteptr_t other, spif_memidx_t len)
 __CPROVER_requires(MBUFF_INV(self) && 0 <= len && len <= VCAP && __CPROVER_is_fresh(other, (size_t) len) && REL(self, len))
+__CPROVER_requires(MB_WIT_SELF(self))
 #  if defined(U_WITHIN)
 CMP_CONTRACT(self->buff, len, other, len)
 #  else
@@ -305,6 +347,7 @@ __CPROVER_ensures(RV != SPIF_CMP_EQUAL)
 void harness(void)
 {
     spif_mbuff_t self; spif_byteptr_t other; spif_memidx_t len;
+    w_n = len;
     FN(self, other, len);
     VERIF_CANARY();
 }
